@@ -104,6 +104,11 @@ func TestC15Debonding(t *testing.T) {
 				rec.Discard("invalid-genesis")
 				return
 			}
+			var ec chain.ErrEngineContract
+			if errors.As(err, &ec) {
+				rec.Discard("engine-contract-at-genesis:" + chain.Why(ec.Err)) // C10 / C14 report it
+				return
+			}
 			ev.Infra(t, "new sim: %v", err)
 		}
 		cur = sim
